@@ -254,6 +254,24 @@ func (x *Exec) randomOp(maxEnt int) (GenOp, bool) {
 		o.Mode = []string{"fresh", "reset", "nojson"}[x.rng.Intn(3)]
 		return o, true
 	}
+	if x.Cfg.ResP > 0 && x.rng.Intn(1000) < x.Cfg.ResP {
+		// resources: valid in the state read from the real world, occasionally invalid (Add of a resource that is
+		// present, Remove of one that is absent must panic and change nothing); the world lock does not matter
+		n := resNames[x.rng.Intn(len(resNames))]
+		has := x.res[n].has(x.w)
+		o := mk("ResAdd")
+		switch r := x.rng.Intn(10); {
+		case has && r < 4:
+			o.Op = "ResSet"
+		case has && r < 8, !has && r >= 9:
+			o.Op = "ResRemove"
+		}
+		o.Ev = n
+		if o.Op != "ResRemove" {
+			o.Vals[n] = int64(1 + x.rng.Intn(9000))
+		}
+		return o, true
+	}
 	if x.Cfg.ObsP > 0 && x.rng.Intn(1000) < x.Cfg.ObsP {
 		kind = 98
 	}
